@@ -3,6 +3,7 @@ package main
 import (
 	"encoding/json"
 	"fmt"
+	"go/ast"
 	"go/parser"
 	"go/token"
 	"os"
@@ -43,6 +44,63 @@ var engineSwaps = map[string][]swap{
 	"dialsim": {},
 }
 
+// yieldFiles: library files in which the overlay also puts a call to
+// simyield.P() in front of every statement (same line, so line numbers stay
+// those of /repo). With no hook installed the call is one atomic load; a run
+// that enables yields lets the plan pause goroutines at these points (DESIGN
+// 8.9). Files whose inner loops run per bit or per tree node are left out for
+// speed, and so is every package that takes locks of its own: a goroutine
+// must never stand still while it holds a sync.Mutex.
+var yieldFiles = map[string][]string{
+	"fbbsim":   {"fbb/secure.go", "fbb/handshake.go", "fbb/b2f.go", "fbb/wl2k.go", "fbb/proposal.go", "fbb/helpers.go", "lzhuf/writer.go", "lzhuf/reader.go", "lzhuf/crc.go"},
+	"codecsim": {"lzhuf/writer.go", "lzhuf/reader.go", "lzhuf/crc.go"},
+}
+
+const yieldImport = "verif/sim/shim/simyield"
+
+// insertYields prefixes every statement of every function body in src with
+// "simyield.P(); " and puts the import behind the package clause, on its line.
+func insertYields(path string, src []byte) ([]byte, error) {
+	fset := token.NewFileSet()
+	f, err := parser.ParseFile(fset, path, src, parser.ParseComments)
+	if err != nil {
+		return nil, fmt.Errorf("overlay: parse %s: %w", path, err)
+	}
+	var offs []int
+	list := func(stmts []ast.Stmt) {
+		for _, st := range stmts {
+			switch st.(type) {
+			case *ast.CaseClause, *ast.CommClause, *ast.EmptyStmt:
+				continue
+			}
+			offs = append(offs, fset.Position(st.Pos()).Offset)
+		}
+	}
+	ast.Inspect(f, func(n ast.Node) bool {
+		switch x := n.(type) {
+		case *ast.BlockStmt:
+			list(x.List)
+		case *ast.CaseClause:
+			list(x.Body)
+		case *ast.CommClause:
+			list(x.Body)
+		}
+		return true
+	})
+	if len(offs) == 0 {
+		return src, nil
+	}
+	sort.Sort(sort.Reverse(sort.IntSlice(offs)))
+	out := append([]byte(nil), src...)
+	for _, o := range offs {
+		out = append(out[:o], append([]byte("simyield.P(); "), out[o:]...)...)
+	}
+	// the import goes on the line of the package clause
+	end := fset.Position(f.Name.End()).Offset
+	out = append(out[:end], append([]byte("; import simyield "+strconv.Quote(yieldImport)), out[end:]...)...)
+	return out, nil
+}
+
 // buildOverlay writes rewritten copies into scratch and returns the overlay file path.
 //
 // Sources are read from /repo's working tree. When $VERIF_REPO names another
@@ -50,7 +108,11 @@ var engineSwaps = map[string][]swap{
 // read from there instead and every non-test .go file that differs from /repo's
 // is overlaid too; overlay keys are always /repo paths because that is where the
 // module replacement points.
-func buildOverlay(repo, scratch string, swaps []swap) (string, error) {
+func buildOverlay(repo, scratch string, swaps []swap, yield []string) (string, error) {
+	yieldSet := map[string]bool{}
+	for _, y := range yield {
+		yieldSet[y] = true
+	}
 	replace := map[string]string{}
 	src := repo
 	if alt := os.Getenv("VERIF_REPO"); alt != "" {
@@ -89,6 +151,13 @@ func buildOverlay(repo, scratch string, swaps []swap) (string, error) {
 		out, changed, err := rewriteImports(path, imports)
 		if err != nil {
 			return err
+		}
+		if yieldSet[filepath.ToSlash(rel)] {
+			y, yerr := insertYields(path, out)
+			if yerr != nil {
+				return yerr
+			}
+			out, changed = y, true
 		}
 		if src != repo && !changed {
 			orig, err := os.ReadFile(filepath.Join(repo, rel))
